@@ -9,7 +9,7 @@ CLAIMED = {
     "C03": dict(
         level="proof",
         technique="Lean 4 theorems over a model of the literal parser + differential correspondence (model vs working-tree parser vs rustc_parse_format)",
-        text="Lean theorems about a function-by-function model of impl/src/fmt/parsing.rs and parse_fmt_string against a derivation model of the std::fmt grammar; the model is compared with the working-tree parser, and the grammar model with rustc's own parser, on ~150k generated literals per run",
+        text="Lean theorems about a function-by-function model of impl/src/fmt/parsing.rs and parse_fmt_string against a derivation model of the std::fmt grammar: text yields no placeholders, the implicit counter follows std's rule on every derivation, and (partial round trip) every canonical derivation whose placeholders carry no format_spec, of any length, is accepted and read back as exactly its formats / std's placeholders (formats_agree_nospec_partial, placeholders_agree_nospec_partial; the character-class hypotheses are checked for all code points of the real tables on every run); the format_spec productions are compared, not proved; the model is compared with the working-tree parser, and the grammar model with rustc's own parser, on ~150k generated literals per run",
         note="Lean kernel; hand-written model tied by differential run each time; rustc_parse_format (nightly) as std oracle; Unicode classes are parameters; syn unescaping and format_args! itself not modelled",
         ref="DESIGN.md §4 C03"),
     "C05": dict(
@@ -39,8 +39,8 @@ CLAIMED = {
     "C16": dict(
         level="proof",
         technique="Lean 4 theorems about a model of the token scanner + correspondence on token streams + syn-full as the expression-grammar oracle",
-        text="Lean theorems over all token streams: what the scanner returns plus what it leaves is the input (verbatim re-emission), it stops only at a top-level comma, Ident iff a single identifier, commas inside delimited groups / `::<..>` / `<..>::` / closure parameter lists (angle-balanced, any nesting depth) never split; two kernel-checked witnesses document the known findings (binary `|`, cast to a generic type). The model is compared with the working-tree FmtAttribute parsing on ~6.5k generated and mutated argument lists, and the implementation with syn's full Expr parser on the same lists",
-        note="Lean kernel; proc_macro2 tokenisation shared by all parties; syn(full) stands for Rust's grammar; three known findings attributed by construct (argument parenthesised => split correct)",
+        text="Lean theorems over all token streams: what the scanner returns plus what it leaves is the input (verbatim re-emission), it stops only at a top-level comma, Ident iff a single identifier, commas inside delimited groups / `::<..>` / `<..>::` / closure parameter lists (angle-balanced, any nesting depth) never split; three kernel-checked witnesses document known findings (binary `|`, cast to a generic type, `a < b, c > ::d`). The model is compared with the working-tree FmtAttribute parsing on ~6.5k generated and mutated argument lists, and the implementation with syn's full Expr parser on the same lists",
+        note="Lean kernel; proc_macro2 tokenisation shared by all parties; syn(full) stands for Rust's grammar; four known findings attributed by construct (argument parenthesised => split correct)",
         ref="DESIGN.md §4 C16"),
     "C09": dict(
         level="proof",
